@@ -56,9 +56,19 @@ def run(ck):
     EFD = set()
     for fb in prog.find("Pistache::PollableQueue::bind", 1):
         for e in fb.calls(lambda e: (e.get("callee") or "") == "Pistache::Polling::Epoll::addFd"):
-            fq = strip_tmpl(((e.get("args") or [{}])[0].get("f") or ""))
+            a0 = (e.get("args") or [{}])[0]
+            fq = strip_tmpl(a0.get("f") or "")
             if fq:
                 EFD.add(fq)
+            elif a0.get("v"):
+                # `const int fd = holder.open(); poller.addFd(fd, ..)`: the field(s) the holder's member hands back
+                for d_ in fb.events("decl"):
+                    if d_.get("var") == a0.get("v") and d_.get("icall"):
+                        for g_ in prog.by_base.get(strip_tmpl(d_["icall"]), []):
+                            for r_ in g_.events("return"):
+                                for x_ in (r_.get("refs") or []):
+                                    if x_.startswith("f:"):
+                                        EFD.add(strip_tmpl(x_[2:]))
     ck.require(EFD, "PollableQueue::bind does not register a member descriptor with the poller")
     is_efd = lambda a_: strip_tmpl((a_ or {}).get("f") or "") in EFD
 
